@@ -233,7 +233,7 @@ func TestVerifReplay(t *testing.T) {
     t_a64 = time.time()
     try:
         a64env = arm64lib.Env('c06')
-        n_a64 = arm64lib.c06(ck, a64env, lambda k, d, w=None: a64fails.setdefault(k, []).append((d, w)), thorough, keys)
+        n_a64 = arm64lib.c06(ck, a64env, lambda k, d, w=None: a64fails.setdefault(k, []).append((d, w)), thorough, keys, wraps)
     except (asmsym.AsmUnsupported, Unsupported, RuntimeError) as ex:
         n_a64 = 0
         a64fails.setdefault('a64:unsupported', []).append(('arm64 part not completed: %s' % ex, None))
